@@ -126,6 +126,13 @@ def evo_boxes(draw, n, m):
     from vlib import gen
     if m <= 14:
         b = draw(gen.boxes(n))
+        if m <= 10 and draw(st.integers(0, 7)) == 0:
+            # a side that is short compared with its distance from the origin (a one-second window of a time stamp,
+            # [1.7e9, 1.7e9 + 1]): 1e6..2e9 widths away, still thousands of doubles per cell at this density
+            k = draw(st.integers(0, n - 1))
+            w = draw(st.sampled_from([1.0, 2.0, 5e-4, 0.25, 37.0]))
+            a = float(draw(st.sampled_from([-1.0, 1.0])) * w * draw(st.integers(10 ** 6, 2 * 10 ** 9)))
+            b["lower"][k], b["upper"][k] = a, a + w
         return b["lower"], b["upper"]
     kind = draw(st.sampled_from(["unit", "sym", "mild"]))
     lo, hi = [], []
